@@ -52,8 +52,9 @@ def check_program(cid, prog, text=None):
     if len(entries) != len(ref.entries):
         viols.append({"kind": "routine-count", "detail": {"expected": len(ref.entries), "got": len(entries), "source": text}})
     else:
+        chains = ctx.setdefault("tau_chains", [])
         for r, (re_, me) in enumerate(zip(ref.entries, entries)):
-            ok, st, tr, rel, mm = lts.product(ref.lts, re_, m, me)
+            ok, st, tr, rel, mm = lts.product(ref.lts, re_, m, me, tau_chains=chains)
             states += st
             transitions += tr
             relation |= rel
